@@ -789,6 +789,11 @@ class Server(BaseComponent):
 
     @handler('_write', priority=1)
     def _on_write(self, sock):
+        if sock not in self._clients:
+            # (the connection of another server on this channel: its write
+            # interest is not ours to remove)
+            return
+
         if self._buffers.get(sock):
             data = self._buffers[sock].popleft()
             self._write(sock, data)
